@@ -2,14 +2,19 @@
 # Sensitivity self-test: for each seeded known-bad patch /verif/seeded/<ID>_<k>/patch.diff, apply it to a scratch
 # copy of /repo and check that run_rt.py <ID> finds a failing input and that --replay reproduces it.
 #   selftest_seeded.sh [TARGET_DIR] [ID_k ...]          (default: all seeds; results to stdout, one line each)
+#   env: SEEDED_DIR (default /verif/seeded; the second wave is /verif/seeded2), MUT (scratch copy), BUDGET, SEED
 TD=${1:-/var/tmp/rt-target-I}; shift
 HERE=$(cd "$(dirname "$0")" && pwd)
-SEEDS=${*:-$(cd /verif/seeded && ls -d */ | tr -d /)}
-MUT=/var/tmp/rtmut
+SD=${SEEDED_DIR:-/verif/seeded}
+SEEDS=${*:-$(cd $SD && ls -d */ | tr -d /)}
+MUT=${MUT:-/var/tmp/rtmut}
 for s in $SEEDS; do
   id=${s%%_*}
   rm -rf $MUT; rsync -a --exclude target --exclude .git /repo/ $MUT/
-  if ! (cd $MUT && patch -s -p1 < /verif/seeded/$s/patch.diff) >/dev/null 2>&1; then echo "$s PATCH-DOES-NOT-APPLY"; continue; fi
+  # cargo's freshness check is mtime based ("a source newer than the last build"): a file RESTORED by rsync carries its old mtime, so a crate
+  # that the previous mutant changed and this one does not would silently keep the previous mutant's artefact.  Make every crate root new.
+  touch $MUT/frost-*/src/lib.rs
+  if ! (cd $MUT && patch -s -p1 < $SD/$s/patch.diff) >/dev/null 2>&1; then echo "$s PATCH-DOES-NOT-APPLY"; continue; fi
   out=$TD/seeded-$s.json; rm -f $out
   t0=$(date +%s)
   r=$(python3 $HERE/run_rt.py $id --repo $MUT --target-dir $TD --budget-s ${BUDGET:-20} --seed ${SEED:-1} --out $out --quiet 2>/dev/null | tail -1)
